@@ -305,6 +305,11 @@ impl Prop for C09 {
             let cl = format!("{pool} ::= CLASS {{ &id INTEGER (0..255) UNIQUE, &Type }}");
             push("class-field", format!("class-field|names={pool}|ctx=assign"), vec![cl.clone(), format!("Mid ::= {pool}.&id")], vec![cl.clone(), "Mid ::= INTEGER (0..255)".into()], vec!["Mid"]);
             push("class-field", format!("class-field|names={pool}|ctx=component"), vec![cl.clone(), format!("Mid ::= SEQUENCE {{ f {pool}.&id, g BOOLEAN }}")], vec![cl.clone(), "Mid ::= SEQUENCE { f INTEGER (0..255), g BOOLEAN }".into()], vec!["Mid"]);
+            push("class-field", format!("class-field|names={pool}|ctx=set-component"), vec![cl.clone(), format!("Mid ::= SET {{ f {pool}.&id, g BOOLEAN }}")], vec![cl.clone(), "Mid ::= SET { f INTEGER (0..255), g BOOLEAN }".into()], vec!["Mid"]);
+            push("class-field", format!("class-field|names={pool}|ctx=alternative"), vec![cl.clone(), format!("Mid ::= CHOICE {{ f {pool}.&id, g BOOLEAN }}")], vec![cl.clone(), "Mid ::= CHOICE { f INTEGER (0..255), g BOOLEAN }".into()], vec!["Mid"]);
+            push("class-field", format!("class-field|names={pool}|ctx=of-element-component"), vec![cl.clone(), format!("Mid ::= SEQUENCE OF SEQUENCE {{ f {pool}.&id }}")], vec![cl.clone(), "Mid ::= SEQUENCE OF SEQUENCE { f INTEGER (0..255) }".into()], vec!["Mid"]);
+            push("class-field", format!("class-field|names={pool}|ctx=setof-element-component"), vec![cl.clone(), format!("Mid ::= SET OF SEQUENCE {{ f {pool}.&id }}")], vec![cl.clone(), "Mid ::= SET OF SEQUENCE { f INTEGER (0..255) }".into()], vec!["Mid"]);
+            push("class-field", format!("class-field|names={pool}|ctx=nested-set"), vec![cl.clone(), format!("Mid ::= SEQUENCE {{ n SET {{ f {pool}.&id }} }}")], vec![cl.clone(), "Mid ::= SEQUENCE { n SET { f INTEGER (0..255) } }".into()], vec!["Mid"]);
         }
         out
     }
